@@ -19,7 +19,7 @@ def gen_case(rng, tier):
     cfg = P.gen_cfg(rng)
     stmts = P.gen_program(rng, cfg, allow_bad=0.02,
                           weights={'org': 5, 'fill': 3, 'zerountil': 1.5, 'label': 1, 'const': 0.5, 'mute': 0.8, 'data': 4,
-                                   'instr': 3, 'memzone': 1.5, 'createZone': 0.8})
+                                   'instr': 3, 'memzone': 1.5, 'createZone': 0.8, 'macro': 2})
     return {'cfg': cfg, 'files': [stmts], 'start': 0, 'end': None, 'fill': 0, 'seed': rng.randrange(1 << 30)}
 
 
